@@ -502,6 +502,63 @@ func c12ServerFraming(w *core.W, j int) {
 	w.Count("hook_hits_readTCP", ctl.Hits()["readTCP.deadlineSet"])
 }
 
+// c12ServerDatagramSizes: a real Server on a simulated datagram socket is handed requests of every
+// size from the smallest message there is (12 octets) to the largest the socket takes: with a policy
+// that accepts everything, the handler sees each one unchanged and its reply comes back.
+func c12ServerDatagramSizes(w *core.W, j int) {
+	ctl := sched.New(uint64(w.Seed) + uint64(j))
+	sched.Use(ctl)
+	defer sched.Use(nil)
+	pc := netsim.NewPacketConn()
+	log := &c12Log{handled: map[string]int{}, seen: map[string]string{}}
+	started := make(chan struct{})
+	srv := &dns.Server{PacketConn: pc, Handler: log.handler(0), UDPSize: 65535, ReadTimeout: time.Hour, NotifyStartedFunc: func() { close(started) },
+		MsgAcceptFunc: func(dns.Header) dns.MsgAcceptAction { return dns.MsgAccept }}
+	serveErr := make(chan error, 1)
+	go func() { serveErr <- srv.ActivateAndServe() }()
+	select {
+	case <-started:
+	case <-time.After(c12Watch):
+		w.Inconclusive("server-did-not-start")
+		return
+	}
+	defer func() {
+		srv.Shutdown()
+		<-serveErr
+	}()
+	fails := 0
+	for k, size := range []int{12, 17, 19, 12, 29, 30, 31, 255, 512, 513, 1232, 4096, 16384, 65000 + j%500, 12} {
+		if fails >= 2 {
+			return
+		}
+		m := sizedMsg(size, uint16(0x100+k), byte(j+k))
+		want, err := m.Pack()
+		if err != nil {
+			continue
+		}
+		addr := netsim.Addr(fmt.Sprintf("dg%d-%d", j, k))
+		w.Eval(1)
+		w.Count("server_datagram_sizes", 1)
+		pc.Inject(want, addr)
+		reply, ok := pc.Sent(addr, c12Watch)
+		wit := map[string]any{"size": len(want)}
+		if !ok {
+			w.Violation("C12/server-no-reply-to-datagram", fmt.Sprintf("no reply to an accepted %d-octet datagram request", len(want)), wit)
+			fails++
+			continue
+		}
+		rm := new(dns.Msg)
+		if err := rm.Unpack(reply); err != nil || rm.Id != m.Id || len(rm.Extra) == 0 {
+			w.Violation("C12/server-reply-mangled", fmt.Sprintf("the reply to a %d-octet datagram does not decode / has another id: %v", len(want), err), wit)
+			continue
+		}
+		sum := sha256.Sum256(want)
+		if txt, ok := rm.Extra[len(rm.Extra)-1].(*dns.TXT); !ok || txt.Txt[0] != hex.EncodeToString(sum[:]) {
+			w.Violation("C12/server-saw-different-request", fmt.Sprintf("the handler's digest of a %d-octet datagram request differs from what was sent", len(want)), wit)
+		}
+	}
+}
+
 // c12IDs: ID handling on streams and datagrams.
 func c12IDs(w *core.W, j int) {
 	r := w.Rng(j)
@@ -1018,6 +1075,7 @@ func init() {
 		section{"respwrite", tiered(3, 30), c12ResponseWrite},
 		section{"crosstalk", tiered(16, 400), c12CrossTalk},
 		section{"multihomed", tiered(6, 100), c12MultiHomed},
+		section{"server-datagram-sizes", tiered(6, 100), c12ServerDatagramSizes},
 	)
 	core.Register(&core.Monitor{
 		ID: "C12", Level: "fault_enumeration", Plan: plan, Run: run, Race: true, Terminates: true, MaxParallel: 8,
